@@ -137,6 +137,29 @@ def blackbox(ctx):
         GC.simple_layout(s, blocks)
         s.meta = {"shared-hash": i}
         by_cb.setdefault(cb, []).append(s)
+    # several OP_RETURN-led outputs in ONE transaction, the early ones evaluating to nothing printable (bare 6a, 6a 00, truncated
+    # push, invalid UTF-8) and a printable one after them: an output's script must not silence its siblings' rows
+    quiet = [b"\x6a", b"\x6a\x00", b"\x6a\x4c", b"\x6a\x05ab", b"\x6a\x02\xc0\x80", b"\x6a\x01\xff", b"\x6a\x4d\x01", b"\x6a\x51"]
+    for i in range(ctx.n(8, 40)):
+        coin = K.COINS[i % 8]
+        cb = ["opreturn", "opreturn", "csvdump", "simplestats"][i % 4]
+        blocks = GC.gen_chain(r, coin, 4, max_txs=1, max_io=1, auxpow_mix=False)
+        for j, b in enumerate(blocks[1:]):
+            outs = []
+            for q in range(r.randrange(2, 6)):
+                sc = r.choice(quiet) if (q == 0 or r.random() < 0.4) else b"\x6a" + bytes([5 + q]) + (b"text-%d-%d-%d" % (i, j, q))[:5 + q].ljust(5 + q, b".")
+                outs.append((q, sc))
+            outs.append((9, b"\x6a\x08last one"))
+            b.txs.append(K.Tx([(GC.rb(r, 32), j, b"", 1)], outs))
+        prev = blocks[0].hash()
+        for b in blocks[1:]:
+            b.prev = prev
+            b.merkle_root = None
+            prev = b.hash()
+        s = K.Scenario(coin=coin, callback=cb)
+        GC.simple_layout(s, blocks)
+        s.meta = {"sibling-opreturns": i}
+        by_cb.setdefault(cb, []).append(s)
     for cb, scns in by_cb.items():
         impl, model = bb.check(ctx, "adversarial-chains:" + cb, scns, comparators(cb))
         for s, res in zip(scns, impl):
